@@ -68,6 +68,7 @@ def pattern_languages(ctx):
             impl = R.union([R.language(p, "match") for p in pats])
             impl_nolf = R.union([R.language(re.compile(p.pattern, p.flags | re.DOTALL), "match", lf_free=True) for p in pats])
         except R.Unsupported as e:
+            ctx.harness_error(f"{label}: a pattern is outside what vf/re2z3.py converts: {e}")
             ctx.ob(f"{label}: language", "RZ3", "inconclusive", detail=str(e))
             continue
         for dom_name, dom in (("LF-free", D_NOLF), ("containing LF", D_LF)):
